@@ -315,6 +315,11 @@ class C13(Monitor):
         sub = self.ctx.sub_for_abs(w.output)
         if any(r[2] == "lock_timeout" for r in w.history):
             return
+        if any(v.killed and v.kill_reason != "reap" and w.in_submitter_subtree(v) for v in w.vprocs):
+            # cancel-jobs' scancel killed a node's closing try-submit-jobs while it held the role:
+            # the documented crash deadlock (C11's subject)
+            w.probe("cancel_killed_a_submitter")
+            return
         for h in self.cmds.values():
             if not h["complete"]:
                 continue
@@ -382,4 +387,6 @@ profiles.nontrivial = _nontrivial
 
 # C09 is also observed over cancel and resubmit histories (DESIGN.md 7.9)
 profiles.CHECKS["C09"]["profiles"] = [("clean_hpc", 0.5), ("cancel", 0.25), ("resubmit", 0.25)]
+profiles.CHECKS["C02"]["profiles"] = [("clean_hpc", 0.55), ("clean_local", 0.25), ("resubmit", 0.2)]
+profiles.RULES["C02"] = profiles.RULES["C02"].replace("HPC and local mode;", "HPC and local mode, plus resubmission epochs (blockers that are rerun must have a new outcome);")
 profiles.RULES["C09"] = profiles.RULES["C09"].replace("as C01;", "as C01, plus cancel and resubmit histories;")
